@@ -255,7 +255,15 @@ impl<'a> Evaluator<'a> {
                 Min(a) => state.min(self.next(*a).eval(chunk)?.min_()),
                 Max(a) => state.max(self.next(*a).eval(chunk)?.max_()),
                 First(a) => state.or(self.next(*a).eval(chunk)?.first()),
-                Last(a) => self.next(*a).eval(chunk)?.last().or(state),
+                Last(a) => {
+                    // the value of the last row, NULL included (as `agg_append` does row by row)
+                    let array = self.next(*a).eval(chunk)?;
+                    if array.is_empty() {
+                        state
+                    } else {
+                        array.last()
+                    }
+                }
                 t => panic!("not aggregation: {t}"),
             }),
             AggState::DistinctValue(mut values) => match self.node() {
